@@ -63,14 +63,14 @@ func runWitnesses(c *vlib.Collector, env *createEnv, id int) int {
 	in.md = []kv{{security.ImpersonatedIdentity, mdVal{kind: "str", s: "spiffe://cluster.local,istiod.istio-system.svc,x/ns/foo/sa/bar"}}}
 	in.clusterIDs = []string{"c1"}
 	id++
-	if c.Wanted(id) {
+	if c.Wanted(id) || c.Wanted(id+sansCompanionOffset) {
 		execCreate(c, id, env, in)
 	}
 	// 2. an authenticated identity containing a comma
 	in = base(env.worlds[0])
 	in.auth = []authSpec{{hasCaller: true, ids: []string{"spiffe://cluster.local/ns/foo/sa/bar,istiod.istio-system.svc"}}}
 	id++
-	if c.Wanted(id) {
+	if c.Wanted(id) || c.Wanted(id+sansCompanionOffset) {
 		execCreate(c, id, env, in)
 	}
 	// 3. the same impersonation without commas (must be issued with exactly that identity)
@@ -79,14 +79,14 @@ func runWitnesses(c *vlib.Collector, env *createEnv, id int) int {
 	in.md = []kv{{security.ImpersonatedIdentity, mdVal{kind: "str", s: "spiffe://cluster.local/ns/foo/sa/bar"}}}
 	in.clusterIDs = []string{"c1"}
 	id++
-	if c.Wanted(id) {
+	if c.Wanted(id) || c.Wanted(id+sansCompanionOffset) {
 		execCreate(c, id, env, in)
 	}
 	// 4. one empty identity (accepted by the authentication manager: the list is not empty)
 	in = base(env.worlds[0])
 	in.auth = []authSpec{{hasCaller: true, ids: []string{""}}}
 	id++
-	if c.Wanted(id) {
+	if c.Wanted(id) || c.Wanted(id+sansCompanionOffset) {
 		execCreate(c, id, env, in)
 	}
 	return id
